@@ -261,6 +261,30 @@ class World(object):
         parent = builder.get_path(pt.env, pt.obj, op["path"][:-1])
         setattr(parent, op["path"][-1], [pt.env.classes[op["cls"]]() for _ in range(op["n"])])
 
+    def op_lo_append(self, op):
+        """legal append of a new element object"""
+        pt = self.parties[op["p"]]
+        lst = builder.get_path(pt.env, pt.obj, op["path"])
+        n0 = len(lst)
+        new = pt.env.classes[op["cls"]]()
+        lst.append(new)
+        self.last_append = {"len_before": n0, "len_after": len(lst),
+                            "last_is_new": len(lst) > 0 and lst[len(lst) - 1] is new}
+
+    def op_lo_append_bad(self, op):
+        """user error that the caller catches: an object of an unrelated class is appended.
+        Returns what the user sees of the list before and after."""
+        pt = self.parties[op["p"]]
+        lst = builder.get_path(pt.env, pt.obj, op["path"])
+        before = [id(e) for e in lst]
+        try:
+            lst.append(pt.env.classes[op["bad"]]())
+            rejected = False
+        except Exception:
+            rejected = True
+        self.last_bad_append = {"rejected": rejected, "before": before, "after": [id(e) for e in lst],
+                                "len_before": len(before), "len_after": len(lst)}
+
     def op_lo_setitem(self, op):
         """replace one element object of an object list: lst[i] = Cls()"""
         pt = self.parties[op["p"]]
